@@ -73,6 +73,13 @@ def gen_ops(tier, rng):
         for o in ["-", "gfni-,avxgfni-", "gfni-,avxgfni-,avx2-", "nosimd", "g=1", "gfni-,avxgfni-,ms=2048"]:
             for size in [33, 4097, 9999, 20001, 65537]:
                 enc(f"sparse:{rng.randrange(1, 999)}", o, d, p, size, "enc-sparse")
+    # block-sparse custom matrices (local parities): whole aligned 10x10 tiles of the coding matrix are zero, also the tile
+    # of the FIRST input group, whose kernel call is the one that overwrites stale parity
+    for (d, p) in [(20, 12), (12, 4), (25, 11), (11, 21), (31, 5), (10, 11)]:
+        for o in ["-", "gfni-,avxgfni-", "g=1", "nosimd", "gfni-,avxgfni-,avx2-"]:
+            for size in [64, 100, 1000, 4097, 65537]:
+                for _ in range(2 if tier == "quick" else 8):
+                    enc(f"blocks:{rng.randrange(1, 9999)}", o, d, p, size, "enc-blocks")
     for tail in range(64):
         enc("default", rng.choice(OPTSETS), 10, 4, 4096 + tail, "enc-tail")
         enc("cauchy", rng.choice(OPTSETS), 3, 11, 1024 + tail, "enc-tail")
